@@ -650,4 +650,109 @@ theorem evictLoop_spins_while_clock_frozen {c : Cfg} {g : Nat} {t : Int} {th : T
     rw [hs, erase_absent hkey]
     exact ih _ hth hpc hmx (Int.le_refl t) hlen hfresh hkey
 
+/-! ### every returned result is explained by the sequential specification of its own op -/
+
+open Spec in
+/-- the ops of a thread so far: finished ones (explaining its results), at most one in flight, the rest to do -/
+def ThreadHist (c : Cfg) (ans : Name → Addrs) (ops : List Op) (th : Thread) : Prop :=
+  ∃ doneRev infl, ops = doneRev.reverse ++ infl ++ th.todo ∧ Explained c ans doneRev th.rets ∧
+    (match th.pc with
+     | .idle => infl = []
+     | .resolve n sel => infl = [.lookup n sel]
+     | .store n a => ∃ sel, infl = [.lookup n sel] ∧ a = ans n
+     | .evict n a => ∃ sel, infl = [.lookup n sel] ∧ a = ans n)
+
+abbrev InvL (c : Cfg) (ans : Name → Addrs) (todos : List (List Op)) (s : State) : Prop :=
+  ∀ (i : Nat) (th : Thread), s.threads[i]? = some th → ∃ ops : List Op, todos[i]? = some ops ∧ ThreadHist c ans ops th
+
+theorem invL_init (c : Cfg) (ans : Name → Addrs) (todos : List (List Op)) (t0 : Int) : InvL c ans todos (init todos t0) := by
+  intro i th hth
+  simp only [init, List.getElem?_map] at hth
+  cases hg : todos[i]? with
+  | none => simp [hg] at hth
+  | some ops =>
+    simp [hg] at hth; subst hth
+    exact ⟨ops, rfl, [], [], by simp, .nil, rfl⟩
+
+theorem invL_update {c : Cfg} {ans : Name → Addrs} {todos : List (List Op)} {s : State} {tid : Nat} {th th' : Thread}
+    (hi : InvL c ans todos s) (hth : s.threads[tid]? = some th)
+    (hnew : ∀ ops, ThreadHist c ans ops th → ThreadHist c ans ops th') :
+    ∀ (i : Nat) (t : Thread), (s.threads.set tid th')[i]? = some t → ∃ ops : List Op, todos[i]? = some ops ∧ ThreadHist c ans ops t := by
+  intro i t ht
+  rw [get_set hth] at ht
+  by_cases hit : i = tid
+  · subst hit
+    simp only [if_true] at ht; cases ht
+    obtain ⟨ops, h1, h2⟩ := hi i th hth
+    exact ⟨ops, h1, hnew ops h2⟩
+  · simp only [hit, if_false] at ht
+    exact hi i t ht
+
+open Spec in
+theorem invL_step {c : Cfg} {ans : Name → Addrs} (hres : ∀ n k a, c.resolver n k = some a → a = ans n)
+    {todos : List (List Op)} {s s' : State} {m : Move} (hh : InvH ans s) (hi : InvL c ans todos s)
+    (h : step c s m = some s') : InvL c ans todos s' := by
+  cases step_rel h with
+  | hit th n sel rest e hth hpc htodo hmx hget hlt =>
+    apply invL_update hi hth
+    rintro ops ⟨doneRev, infl, hops, hex, hin⟩
+    rw [hpc] at hin; simp only at hin; subst hin
+    refine ⟨.lookup n sel :: doneRev, [], ?_, .cons ⟨rfl, hh.host _ (get?_mem hget)⟩ hex, rfl⟩
+    rw [hops, htodo]; simp
+  | stale th n sel rest e hth hpc htodo hmx hget hlt =>
+    apply invL_update hi hth
+    rintro ops ⟨doneRev, infl, hops, hex, hin⟩
+    rw [hpc] at hin; simp only at hin; subst hin
+    refine ⟨doneRev, [.lookup n sel], ?_, hex, rfl⟩
+    rw [hops, htodo]; simp
+  | absent th n sel rest hth hpc htodo hmx hget =>
+    apply invL_update hi hth
+    rintro ops ⟨doneRev, infl, hops, hex, hin⟩
+    rw [hpc] at hin; simp only at hin; subst hin
+    refine ⟨doneRev, [.lookup n sel], ?_, hex, rfl⟩
+    rw [hops, htodo]; simp
+  | del th n rest hth hpc htodo hmx =>
+    apply invL_update hi hth
+    rintro ops ⟨doneRev, infl, hops, hex, hin⟩
+    rw [hpc] at hin; simp only at hin; subst hin
+    refine ⟨.del n :: doneRev, [], ?_, .cons rfl hex, rfl⟩
+    rw [hops, htodo]; simp
+  | resolveFail th n sel hth hpc hr =>
+    apply invL_update hi hth
+    rintro ops ⟨doneRev, infl, hops, hex, hin⟩
+    rw [hpc] at hin; simp only at hin; subst hin
+    refine ⟨.lookup n sel :: doneRev, [], ?_, .cons ⟨rfl, hr⟩ hex, rfl⟩
+    rw [hops]; simp
+  | resolveNoCache th n sel a hth hpc hr hsz =>
+    apply invL_update hi hth
+    rintro ops ⟨doneRev, infl, hops, hex, hin⟩
+    rw [hpc] at hin; simp only at hin; subst hin
+    refine ⟨.lookup n sel :: doneRev, [], ?_, .cons ⟨rfl, hres n sel a hr⟩ hex, rfl⟩
+    rw [hops]; simp
+  | resolveOk th n sel a hth hpc hr hsz =>
+    apply invL_update hi hth
+    rintro ops ⟨doneRev, infl, hops, hex, hin⟩
+    rw [hpc] at hin; simp only at hin; subst hin
+    exact ⟨doneRev, [.lookup n sel], hops, hex, sel, rfl, hres n sel a hr⟩
+  | lock th n a hth hpc hmx =>
+    apply invL_update hi hth
+    rintro ops ⟨doneRev, infl, hops, hex, hin⟩
+    rw [hpc] at hin; simp only at hin
+    exact ⟨doneRev, infl, hops, hex, hin⟩
+  | evictOne th n a hth hpc hmx hlen => exact hi
+  | insert th n a hth hpc hmx hlen =>
+    apply invL_update hi hth
+    rintro ops ⟨doneRev, infl, hops, hex, hin⟩
+    rw [hpc] at hin; simp only at hin
+    obtain ⟨sel, hin, ha⟩ := hin
+    subst hin
+    refine ⟨.lookup n sel :: doneRev, [], ?_, .cons ⟨rfl, ha⟩ hex, rfl⟩
+    rw [hops]; simp
+
+theorem invL_reachable {c : Cfg} {ans : Name → Addrs} (hres : ∀ n k a, c.resolver n k = some a → a = ans n)
+    {todos : List (List Op)} {t0 : Int} {s : State} (h : Reachable c todos t0 s) : InvL c ans todos s := by
+  induction h with
+  | init => exact invL_init c ans todos t0
+  | step m hr hs ih => exact invL_step hres (invH_reachable hres hr) ih hs
+
 end V.Conc.Dns
